@@ -24,6 +24,7 @@ Decides (on Doc::render_console, colourless and colour builds):
  S splitter cuts   see C12.
  F short form      every paragraph break reaches the `full` test, and on its short-form edge Skip::enable is unconditional; W term gap: the two-blank
                    top-up between a wide term and its help can follow the ordinary padding whatever that pushed.
+ S split whole     split() hands its parameter to the Splitter as it is (no trimming: a paragraph break can be the start of a fragment).
 Does not decide: the numeric bound on line length (byte vs char counts)."""
 import re
 from core import *
